@@ -73,6 +73,8 @@ type Provider struct {
 	Repair        []cloudprovider.RepairPolicy
 	// Fault hook: called before every provider call; a non-nil return fails the call
 	Hook func(verb string, nc *v1.NodeClaim, id string) error
+	// Decorate (optional) completes a freshly built instance type (e.g. with DRA device templates)
+	Decorate func(it *cloudprovider.InstanceType)
 
 	Instances map[string]*Instance
 	Calls     []ProviderCall
@@ -116,7 +118,11 @@ func (p *Provider) GetInstanceTypes(_ context.Context, np *v1.NodePool) ([]*clou
 	}
 	var its []*cloudprovider.InstanceType
 	for _, s := range p.catalog(name) {
-		its = append(its, s.Build())
+		it := s.Build()
+		if p.Decorate != nil {
+			p.Decorate(it)
+		}
+		its = append(its, it)
 	}
 	p.built[key] = its
 	return its, nil
